@@ -10,6 +10,7 @@ import (
 	"unicode/utf8"
 
 	"github.com/tobgu/qframe"
+	"github.com/tobgu/qframe/config/groupby"
 	"github.com/tobgu/qframe/config/newqf"
 
 	"verif/harness/core"
@@ -30,6 +31,9 @@ type jsonCase struct {
 	StrHex  []string `json:"str_hex,omitempty"`
 	// ConstEnum: the frame is {s: ConstString(StrHex[0]) x 2 as a derived enum, id: 0,1} built directly with New
 	ConstEnum bool `json:"const_enum,omitempty"`
+	// AggAs: the frame written is Build(frame).GroupBy(id).Aggregate(count of column 0 As <AggAs>, max id As "m"):
+	// columns renamed by an aggregation
+	AggAs string `json:"agg_as,omitempty"`
 }
 
 func hexOf(s string) string { return fmt.Sprintf("%x", s) }
@@ -102,6 +106,16 @@ func runJSONCase(c jsonCase) *core.Failure {
 		return core.Failf("could not build frame: %s", in.ErrText)
 	}
 	in.AdoptMeta(f)
+	if c.AggAs != "" {
+		qf = qf.GroupBy(groupby.Columns("id")).Aggregate(qframe.Aggregation{Fn: "count", Column: f.Cols[0].Name, As: c.AggAs}, qframe.Aggregation{Fn: "max", Column: "id", As: "m"}).Sort(qframe.Order{Column: "id"})
+		in = model.Observe(qf)
+		if in.Err {
+			return core.Failf("could not aggregate: %s", in.ErrText)
+		}
+		if len(in.Cols) != 3 || in.Cols[1].Name != c.AggAs || in.Cols[2].Name != "m" {
+			return core.Failf("aggregated frame has columns %v, want [id %s m]", in.Names(), c.AggAs)
+		}
+	}
 	var buf bytes.Buffer
 	if err := qf.ToJSON(&buf); err != nil {
 		return core.Failf("ToJSON error: %v", err)
@@ -284,6 +298,16 @@ func c14Run(ctx *core.Ctx) {
 		}
 		f := model.Frame{N: 2, Cols: []model.Col{{Name: "n", Kind: model.Int, Cells: []model.Cell{model.I(1), model.I(2)}}, {Name: "z", Kind: model.Bool, Cells: []model.Cell{model.B(true), model.B(false)}}}}
 		exec(jsonCase{Frame: f, Shape: 0, NameHex: hexOf(s)}, "long-names")
+	}
+	// frames whose columns got their names from an aggregation (As)
+	for _, as := range []string{"total", "n\"q", "s", "\u00e4\\", "m2"} {
+		for _, kind := range []model.Kind{model.String, model.Enum} {
+			for shape := 0; shape < model.NShapes; shape++ {
+				if ctx.Mine() {
+					exec(jsonCase{Frame: strFrame(kind, 3), Shape: shape, StrHex: []string{hexOf("x"), "null", hexOf("y")}, AggAs: as}, "aggregated-as")
+				}
+			}
+		}
 	}
 	// enum columns made from a constant (ConstString + Enums): the value enters the enum by another door
 	constVals := append([]string{}, byteStrings...)
